@@ -27,7 +27,7 @@ BANDS = [5, 20, 40, 100]
 # independent window
 # ------------------------------------------------------------------------------------------------
 
-PROP_MODULES = ['C07', 'C07Gen']
+PROP_MODULES = ['C07', 'C07Gen', 'C07GenBand']
 
 def ko_weight(band, f, fc):
     x = band * math.log10(f / fc)
